@@ -209,7 +209,7 @@ class Check:
                 new.append((code, detail, replay))
         for code, n in sorted(seen_known.items()):
             print("KNOWN-FINDING: property=%s %s — %s (%d occurrence(s) this run)" % (self.pid, code, kcodes[code].get("what", ""), n))
-        for d in self.drift[:20]:
+        for d in self.drift[:6]:
             print("MODEL-DRIFT property=%s %s" % (self.pid, d))
         rc = 0
         if new:
